@@ -46,6 +46,8 @@ class T:
         self.pending = None
         self.steps = 0
         self.waited = False
+        self.timed_wait = None      # SCondition the thread is blocked on WITH a timeout
+        self.timed_out = False
 
 
 _current = [None]   # the scheduler owning the running execution (None outside executions)
@@ -69,6 +71,8 @@ class Sched:
         self.ctx.after_close = self.after_close
         self.flock_waiters = []
         self.log = []
+        self.expire_timed_waits = False   # aggressive mode: a wait with a timeout expires at once ("the holder stalled for longer")
+        self.saw_timed_wait = False
 
     # ---- program threads -------------------------------------------------------------------
     def add(self, fn):
@@ -158,6 +162,15 @@ class Sched:
                 if not runnable:
                     if all(t.state == "done" for t in self.ts):
                         break
+                    timed = [t for t in self.ts if t.state == "blocked" and t.timed_wait is not None]
+                    if timed:
+                        # nobody can run: time passes until the first timed wait expires
+                        tw = timed[0]
+                        if tw in tw.timed_wait.waiters:
+                            tw.timed_wait.waiters.remove(tw)
+                        tw.timed_out = True
+                        self.wake(tw)
+                        continue
                     info = [(t.idx, t.state, t.wait_on, t.pending) for t in self.ts]
                     raise Deadlock(info)
                 t = chooser(self.total_steps, runnable, last, self)
@@ -279,18 +292,31 @@ class SCondition:
         s = cur()
         t = s.me() if s else None
         if t is None:
+            if timeout is not None:
+                return False          # a single thread waiting with a timeout: the timeout expires
             raise WouldBlockForever("condition wait with no other thread that could notify")
+        if timeout is not None:
+            s.saw_timed_wait = True
+            if s.expire_timed_waits:
+                # aggressive mode: the wait expires at once (others get a chance to run in between)
+                self.lock.release()
+                s.yield_point(("cond.wait.timeout", id(self)))
+                self.lock._take(s, t)
+                return False
         self.lock.release()
         self.waiters.append(t)
         t.pending = ("cond.wait", id(self))
+        t.timed_wait, t.timed_out = (self if timeout is not None else None), False
         s.block(t, ("cond", id(self)))
+        t.timed_wait = None
         self.lock._take(s, t)
-        return True
+        return not t.timed_out
 
     def wait_for(self, predicate, timeout=None):
         r = predicate()
         while not r:
-            self.wait()
+            if not self.wait(timeout) and timeout is not None:
+                return predicate()
             r = predicate()
         return r
 
